@@ -308,12 +308,11 @@ class SqliteStorage(AbstractStorage):
         starttime, endtime = _event_to_us(event)
         datastr = json.dumps(event.data)
         query = """UPDATE events
-                     SET bucketrow = (SELECT rowid FROM buckets WHERE id = ?),
-                         starttime = ?,
+                     SET starttime = ?,
                          endtime = ?,
                          datastr = ?
-                     WHERE id = ?"""
-        self.conn.execute(query, [bucket_id, starttime, endtime, datastr, event_id])
+                     WHERE id = ? AND bucketrow = (SELECT rowid FROM buckets WHERE id = ?)"""
+        self.conn.execute(query, [starttime, endtime, datastr, event_id, bucket_id])
         self.conditional_commit(1)
         return True
 
